@@ -73,6 +73,15 @@ def gen_hostile(rng):
                          "hold": rng.choice([61.0, 75.0, 130.0, 3700.0])}])
     if rng.random() < 0.6 or not threads:
         threads.append([{"pre": None, "loop": None, "till": None, "bare": 0, "post": (0, 1), "raises": False, "badtill": rng.choice([0.5, 3, "soon"])}])
+    if rng.random() < 0.5:
+        # a thread whose wait for the lock is interrupted by an exception (what a signal handler that raises does to the main
+        # thread while it is blocked in acquire()): it never got the mutex, so it has nothing to give back
+        threads.append([{"pre": (1, 1), "loop": None, "till": None, "bare": 0, "post": None, "raises": False, "interrupt": True}])
+        threads.append([{"pre": None, "loop": None, "till": None, "bare": 0, "post": (1, 2), "raises": False, "hold": 0.5}])
+    if rng.random() < 0.5:
+        # a thread that, while it is suspended in wait() (the mutex is free), runs a handler that enters the lock itself (what a
+        # signal handler does on the main thread): the handler needs the mutex like anybody else
+        threads.append([{"pre": None, "loop": (0, 1), "till": None, "bare": 0, "post": None, "raises": False, "handler": True}])
     for _ in range(rng.randint(1, 3)):
         threads.append([{"pre": (0, 1), "loop": None, "till": None, "bare": 0, "post": None, "raises": rng.random() < 0.2}])
     rng.shuffle(threads)
@@ -96,6 +105,10 @@ def shape(sc):
             s += "H"
         if blk.get("badtill") is not None:
             s += "B"
+        if blk.get("interrupt"):
+            s += "I"
+        if blk.get("handler"):
+            s += "S"
         return s or "-"
     return "%s:" % sc.get("kind", "") + "/".join(",".join(b(x) for x in t) for t in sc["threads"]) + ":f%d" % len(sc["fire"])
 
@@ -112,10 +125,24 @@ def run_scenario(sc, chooser=None, seed=0, max_steps=3000, rewait_limit=12):
     RealSignal = signals.Signal
     cur_w = {}
     st = {"nextw": 0, "viol": [], "inside": 0, "sigma": {}, "external": 0, "rewaits": {}, "livelock": None,
-          "wait_calls": 0}
+          "wait_calls": 0, "handler": {}}
+
+    class HandlerSignal(RealSignal):
+        """the waiter signal of a thread that runs a handler while it is suspended in wait(): the handler enters the lock"""
+        __slots__ = ()
+
+        def wait(self, *a, **k):
+            vt = sched.me()
+            if vt is not None and st["handler"].pop(vt.name, None):
+                ti = int(vt.name[1:])
+                with Noted(ti, handler=True):
+                    sched.yield_point(("handler", ti))        # inside the lock for a moment
+                    sched.yield_point(("handler", ti))
+            return RealSignal.wait(self, *a, **k)
 
     def signal_factory(*a, **k):
-        sig = RealSignal(*a, **k)
+        vt0 = sched.me()
+        sig = (HandlerSignal if (vt0 is not None and st["handler"].get(vt0.name)) else RealSignal)(*a, **k)
         vt = sched.me()
         if vt is not None and vt.name in cur_w:
             sched.trace(sig, "w%d" % cur_w[vt.name])
@@ -147,8 +174,9 @@ def run_scenario(sc, chooser=None, seed=0, max_steps=3000, rewait_limit=12):
         sigma = st["sigma"]
 
         class Noted(object):
-            def __init__(self, ti):
+            def __init__(self, ti, handler=False):
                 self.ti = ti
+                self.handler = handler
 
             def __enter__(self):
                 sched.note("call", self.ti, "enter")
@@ -213,6 +241,10 @@ def run_scenario(sc, chooser=None, seed=0, max_steps=3000, rewait_limit=12):
         def body(ti, blocks):
             def run():
                 for blk in blocks:
+                    if blk.get("interrupt"):
+                        sched.me().inject_exc = Boom()           # its wait for the mutex will be interrupted, if it has to wait
+                    if blk.get("handler"):
+                        st["handler"][sched.me().name] = True
                     try:
                         with Noted(ti):
                             if blk["pre"]:
